@@ -4,7 +4,7 @@ var properties = map[string]*Property{}
 
 func reg(p *Property) {
 	if p.Technique == "" {
-		p.Technique = "static analysis (go/types + go/ssa): " + p.Level
+		p.Technique = "static analysis (go/types + go/ssa; dominance, path-state dataflow, helper-aware summaries, table comparison): " + p.Level + "; further structural rules per DESIGN.md §0.1"
 	}
 	if len(p.Assumptions) == 0 {
 		p.Assumptions = []string{commonAssume}
@@ -39,7 +39,7 @@ func init() {
 	_ = engine
 	reg(&Property{
 		ID:          "C01",
-		Explanation: "Decides on every path of the memory driver: S1 the seven indexes are written, deleted and read under the same keys (bucket key signature and element key = full triple UUID agree between AddTriples, RemoveTriples and each of the twelve readers; each index is freshly allocated per graph and no package-level map exists); S2 create/get/drop of a graph name test presence first and fail without effect otherwise; S3 every access to the namespace map and the indexes holds the owner's lock in the required mode. The identity clause is C06's rule H2. Also (DESIGN §0.1): S1x bucket drops guarded by that bucket's emptiness and NewGraph registering a value allocated in the call; S2y presence test and map update inside one write-locked section; H1x/H3x the identity hashes read whole varints from buffers still owned; M4/M5 the memoizing wrapper's keys use full UUIDs. Not decided: set semantics over histories as such.",
+		Explanation: "Decides on every path of the memory driver: S1 the seven indexes are written, deleted and read under the same keys (bucket key signature and element key = full triple UUID agree between AddTriples, RemoveTriples and each of the twelve readers; each index is freshly allocated per graph and no package-level map exists); S2 create/get/drop of a graph name test presence first and fail without effect otherwise; S3 every access to the namespace map and the indexes holds the owner's lock in the required mode. The identity clause is C06's rule H2. Also (DESIGN §0.1): S1x bucket drops guarded by that bucket's emptiness and NewGraph registering a value allocated in the call; S2y presence test and map update inside one write-locked section; H1x/H3x the identity hashes read whole varints from buffers still owned; M4/M5 the memoizing wrapper's keys use full UUIDs. Not decided: set semantics over histories as such. Round 3: S7b no return inside the batch loop; S3d guarded fields only touched by their owner; M3b.",
 		Rules:       []func(*Ctx){ruleS3d, ruleS7b, ruleM3b, ruleH1x, ruleH3x, ruleM4M5, ruleS1, ruleS1x, ruleS2, ruleS2y, ruleS3, ruleS7},
 		Level:       "index key agreement between writer, deleter and readers (S1), guarded namespace operations (S2), lockset (S3), batch atomicity (S7)",
 		Trusted:     []string{"Go map semantics", "guard table of S3", trustedCore},
@@ -47,7 +47,7 @@ func init() {
 	})
 	reg(&Property{
 		ID:          "C02",
-		Explanation: "Decides: S1 each lookup reads the one index whose bucket key is built from exactly its fixed components with the writer's UUID/PartialUUID choice, and deleters cover every bucket; S8 every channel lookup runs bounds -> filter -> sort -> page with a checker built from its own predicate; S9 the bucket post-filter (abstractly interpreted over query/stored kind) admits a stored predicate only if it has the query's kind and, for temporal ones, after the instants were compared; S10 the window comparisons are mirror images. Also: S9z newChecker takes the anchor of every temporal lookup predicate; S8x global-bounds/latest/paging details; S1x; H1x/H3x; M4/M5 wrapper keys. Not decided: equality with a scan for all histories.",
+		Explanation: "Decides: S1 each lookup reads the one index whose bucket key is built from exactly its fixed components with the writer's UUID/PartialUUID choice, and deleters cover every bucket; S8 every channel lookup runs bounds -> filter -> sort -> page with a checker built from its own predicate; S9 the bucket post-filter (abstractly interpreted over query/stored kind) admits a stored predicate only if it has the query's kind and, for temporal ones, after the instants were compared; S10 the window comparisons are mirror images. Also: S9z newChecker takes the anchor of every temporal lookup predicate; S8x global-bounds/latest/paging details; S1x; H1x/H3x; M4/M5 wrapper keys. Not decided: equality with a scan for all histories. Round 3: PT1 a predicate is immutable exactly when it has no anchor; M3b.",
 		Rules:       []func(*Ctx){rulePT1, ruleM3b, ruleH1x, ruleH3x, ruleM4M5, ruleS9z, ruleS1, ruleS1x, ruleS8, ruleS8x, ruleS9, func(c *Ctx) { ruleS10(c, 1, "storage/memory") }},
 		Level:       "reader/writer key agreement (S1), pipeline shape of all 11 lookups (S8), abstract interpretation of the kind/instant post-filter (S9), bound duality (S10)",
 		Trusted:     []string{"predicate.TimeAnchor fails exactly for immutable predicates; newChecker records the anchor of a temporal query predicate (checked structurally)", trustedCore},
@@ -55,7 +55,7 @@ func init() {
 	})
 	reg(&Property{
 		ID:          "C03",
-		Explanation: "Decides necessary conditions only: P1 in tripleToRow every row store is followed on every path by the binding-consistency check whose false edge abandons the triple, and each extraction is built from the matching part of the triple; P2 the three tables naming a clause's bindings agree with the struct; P3 on each of the eight nil-patterns simpleFetch calls the driver method whose parameters are exactly the fixed components; S10 clause-level and row-supplied bounds are treated as mirror images; L3 row values looked up with comma-ok are not dereferenced when absent; S9 kind/instant matching at the driver. Also: P3b the unfeasible flag joins constants only; PO1 predicate/object extraction twins; TB1 the table's two column descriptions move together; S6b planner never writes the shared options; L3b cell pointer fields tested before use; S1/S1x index agreement. Not decided: soundness/completeness of the join.",
+		Explanation: "Decides necessary conditions only: P1 in tripleToRow every row store is followed on every path by the binding-consistency check whose false edge abandons the triple, and each extraction is built from the matching part of the triple; P2 the three tables naming a clause's bindings agree with the struct; P3 on each of the eight nil-patterns simpleFetch calls the driver method whose parameters are exactly the fixed components; S10 clause-level and row-supplied bounds are treated as mirror images; L3 row values looked up with comma-ok are not dereferenced when absent; S9 kind/instant matching at the driver. Also: P3b the unfeasible flag joins constants only; PO1 predicate/object extraction twins; TB1 the table's two column descriptions move together; S6b planner never writes the shared options; L3b cell pointer fields tested before use; S1/S1x index agreement. Not decided: soundness/completeness of the join. Round 3: P3c a fully specified clause is appended only after the running table was examined (fixed defect 9c8b916); TB2 the cross product has |left|x|right| rows; TB3 projections keep the rows; HK1.",
 		Rules: []func(*Ctx){ruleP3c, ruleTB3, ruleHK1, ruleTB2, ruleS1, ruleS1x, ruleP1, ruleP2, ruleP3, ruleP3b, ruleS6b, rulePO1, ruleTB1, func(c *Ctx) { ruleL3b(c, "bql/planner") }, func(c *Ctx) { ruleS10(c, 3, "bql/planner", "bql/semantic", "storage/memory") },
 			func(c *Ctx) { ruleL3(c, "bql/...") }, ruleS9},
 		Level:      "row-binding typestate (P1), table agreement (P2), dispatch by nil-pattern with edge facts (P3), bound duality (S10), comma-ok contradiction rule (L3)",
@@ -64,7 +64,7 @@ func init() {
 	})
 	reg(&Property{
 		ID:          "C04",
-		Explanation: "Decides: P9 which driver mutations each statement kind can reach (lexical closures per Execute), the construct flag selecting AddTriples vs RemoveTriples, the fan-out over every target graph with the whole batch, the target list being the one the grammar puts after INTO/FROM, and Reify using one fresh blank node for its three triples; P5 the query (graph resolution) precedes the writer in CONSTRUCT/DECONSTRUCT; P8 no write error is dropped; L6 the bulk writer is joined and its channel closed on every path. Also: P9c every row of the binding table sends at least one triple; P9d the bulk writer keeps its first error; I1 Init returns each graph lookup error at once; P8b tested errors are propagated; PO1. Not decided: that the written set equals the stated set.",
+		Explanation: "Decides: P9 which driver mutations each statement kind can reach (lexical closures per Execute), the construct flag selecting AddTriples vs RemoveTriples, the fan-out over every target graph with the whole batch, the target list being the one the grammar puts after INTO/FROM, and Reify using one fresh blank node for its three triples; P5 the query (graph resolution) precedes the writer in CONSTRUCT/DECONSTRUCT; P8 no write error is dropped; L6 the bulk writer is joined and its channel closed on every path. Also: P9c every row of the binding table sends at least one triple; P9d the bulk writer keeps its first error; I1 Init returns each graph lookup error at once; P8b tested errors are propagated; PO1. Not decided: that the written set equals the stated set. Round 3: TB3 projections keep the rows (constant-only templates); HK2 the bindings checker validates before accepting; S7b.",
 		Rules:       []func(*Ctx){ruleTB3, ruleHK2, ruleS7b, ruleP9d, ruleP9, ruleP9c, rulePO1, ruleI1, ruleP5, func(c *Ctx) { ruleP8(c, "bql/planner") }, func(c *Ctx) { ruleP8b(c, "bql/planner") }, func(c *Ctx) { ruleL6(c, 12, "bql/planner") }},
 		Level:       "statement-kind -> effect table over the call graph with lexically bound closures (P9), dominance of stages (P5), error use (P8), join typestate (L6)",
 		Trusted:     []string{"the statement-kind -> mutation table stated by the property (frozen in rule P9)", trustedCore},
@@ -72,7 +72,7 @@ func init() {
 	})
 	reg(&Property{
 		ID:          "C05",
-		Explanation: "Decides that printer and parser of each text format use the same tables (T1): one time layout constant at every Format/Parse of anchors and bounds; %q paired with strconv.Unquote and the anchor delimiter; the literal separator; node delimiters; Triple.String's separators accepted by the compiled split patterns; WriteGraph's terminator vs the reader's split function; literal type names lexer = parser = printer (X5); the reader/writer counting discipline (IO1). Also: T2 conversion table, T2b the text between the quotes reaches the conversion unchanged. Not decided: round-trip equality for all values.",
+		Explanation: "Decides that printer and parser of each text format use the same tables (T1): one time layout constant at every Format/Parse of anchors and bounds; %q paired with strconv.Unquote and the anchor delimiter; the literal separator; node delimiters; Triple.String's separators accepted by the compiled split patterns; WriteGraph's terminator vs the reader's split function; literal type names lexer = parser = printer (X5); the reader/writer counting discipline (IO1). Also: T2 conversion table, T2b the text between the quotes reaches the conversion unchanged. Not decided: round-trip equality for all values. Round 3: FS1 formats are constants; S3c no process-wide cache in the value packages; N1/N1b node.Parse builds validated nodes; T3 floats use 64 bits; H3z pooled bytes do not escape; T1 split patterns require the separator.",
 		Rules:       []func(*Ctx){ruleN1b, ruleT3, ruleN1, func(c *Ctx) { ruleH3z(c, "triple/...", "io", "storage/...", "bql/...") }, func(c *Ctx) { ruleFS1(c, "triple/...", "io") }, func(c *Ctx) { ruleS3c(c, "triple/...", "io") }, ruleT2b, ruleT1, ruleT2, ruleIO1},
 		Level:       "sibling table agreement between printers and parsers (T1), must-pass-through on the line reader (IO1)",
 		Trusted:     []string{"fmt verbs, strconv.Unquote, regexp and bufio.ScanLines behave as documented", trustedCore},
@@ -80,7 +80,7 @@ func init() {
 	})
 	reg(&Property{
 		ID:          "C06",
-		Explanation: "Decides: H1 every varint buffer can hold a 64-bit value; H2 the byte strings hashed by the identity methods show none of the certain non-injectivity patterns (adjacent variable segments, untagged bare-variable or equal-length alternatives, optional suffix after a variable segment, untagged delegation), Triple.UUID tiles its buffer with the full UUIDs of subject, predicate, object, no zone-dependent rendering is hashed, Triple.Equal is uuid.Equal of the two UUIDs; H3 no clock/random/pid/map-order dependency and pooled buffers are reset. H2 only refutes injectivity; it never proves it. Also: H1x varint hashed whole (array- or slice-backed), H3x pooled buffers released last.",
+		Explanation: "Decides: H1 every varint buffer can hold a 64-bit value; H2 the byte strings hashed by the identity methods show none of the certain non-injectivity patterns (adjacent variable segments, untagged bare-variable or equal-length alternatives, optional suffix after a variable segment, untagged delegation), Triple.UUID tiles its buffer with the full UUIDs of subject, predicate, object, no zone-dependent rendering is hashed, Triple.Equal is uuid.Equal of the two UUIDs; H3 no clock/random/pid/map-order dependency and pooled buffers are reset. H2 only refutes injectivity; it never proves it. Also: H1x varint hashed whole (array- or slice-backed), H3x pooled buffers released last. Round 3: H4 identity methods write nothing; PT1; H3z; S3c; H1x the hashed varint prefix is never capped.",
 		Rules:       []func(*Ctx){ruleH4, rulePT1, func(c *Ctx) { ruleH3z(c, "triple/...", "io", "storage/...", "bql/...") }, func(c *Ctx) { ruleS3c(c, "triple/...", "io") }, ruleH1, ruleH1x, ruleH2, ruleH3, ruleH3x},
 		Level:       "symbolic framing analysis of every hashed byte string over all paths of the seven identity methods (H2), buffer capacity (H1), determinism by reachability (H3)",
 		Trusted:     []string{"SHA-1 collision freedom", "uuid.NewSHA1 hashes exactly the bytes given", trustedCore},
@@ -88,7 +88,7 @@ func init() {
 	})
 	reg(&Property{
 		ID:          "C07",
-		Explanation: "Decides, for every path of the analysed functions and hence every schedule that can drive them: S3 every access to a lock-guarded field (frozen guard table: memoryStore.graphs, the seven memory indexes, the five memoizer caches, Table rows/bindings) holds the owner's lock in the required mode; S4 no method re-acquires its receiver's lock through a same-receiver call; S5 every Store/Graph method with a result channel closes it exactly once on every return, error returns included; S6 no lookup (or module callee it hands the pointer to) stores through its *LookupOptions; S7 AddTriples is one critical section; S2 create/get/drop test presence under the lock; L6 planner goroutines are joined. Also: S2y write-locked create/drop; H3y module-wide pooled-buffer release order. Not decided: linearizability.",
+		Explanation: "Decides, for every path of the analysed functions and hence every schedule that can drive them: S3 every access to a lock-guarded field (frozen guard table: memoryStore.graphs, the seven memory indexes, the five memoizer caches, Table rows/bindings) holds the owner's lock in the required mode; S4 no method re-acquires its receiver's lock through a same-receiver call; S5 every Store/Graph method with a result channel closes it exactly once on every return, error returns included; S6 no lookup (or module callee it hands the pointer to) stores through its *LookupOptions; S7 AddTriples is one critical section; S2 create/get/drop test presence under the lock; L6 planner goroutines are joined. Also: S2y write-locked create/drop; H3y module-wide pooled-buffer release order. Not decided: linearizability. Round 3: S13 lock balance per object; S3b/S3c/S3d completeness of the guard table, no package-level state, encapsulation of guarded fields; H4; H3w/H3z pooled values do not escape.",
 		Rules:       []func(*Ctx){ruleH4, ruleS3d, func(c *Ctx) { ruleH3w(c, "triple/...", "io", "storage/...", "bql/...") }, func(c *Ctx) { ruleH3z(c, "triple/...", "io", "storage/...", "bql/...") }, func(c *Ctx) { ruleS3c(c, "triple/...", "io", "bql/...", "storage/...") }, ruleS3b, ruleS13, ruleS3, ruleS4, ruleS5, ruleS6, ruleS7, ruleS2, ruleS2y, func(c *Ctx) { ruleH3y(c) }, func(c *Ctx) { ruleL6(c, 23, "bql/planner", "storage/...") }},
 		Level:       "lockset (S3), lock re-entry (S4), close-exactly-once typestate on all returns (S5), options never written (S6), batch atomicity (S7)",
 		Trusted:     []string{"guard table of rule S3 (field -> lock; a new map/slice field on a lock-owning type is reported until added)", "tableSequentialOnly exemptions (3 Table methods, reasons in source)", trustedCore},
@@ -96,7 +96,7 @@ func init() {
 	})
 	reg(&Property{
 		ID:          "C08",
-		Explanation: "Decides: X1/X1b every lexer loop and the state machine terminate; X2 exactly one terminal token then the channel is closed; X3 the cursor invariant; L7 evaluator recursion passes strictly shorter slices and the grammar consumes a token per recursion level; L1 every compiler-unproven index/slice on the statement path is discharged by a re-verified schema or reviewed entry; L2 no (nil, nil); L3 comma-ok values are not dereferenced when absent; L4 no process-killing call; P12 a negative LIMIT cannot reach make(); L6 every goroutine is joined or its producer drained; IO1 reader discipline. Also: X7 the scanner advances by the decoder's size; L2b, L3b, L6c, L6d (DESIGN §0.1). Not decided: absence of all panics, bounded running time.",
+		Explanation: "Decides: X1/X1b every lexer loop and the state machine terminate; X2 exactly one terminal token then the channel is closed; X3 the cursor invariant; L7 evaluator recursion passes strictly shorter slices and the grammar consumes a token per recursion level; L1 every compiler-unproven index/slice on the statement path is discharged by a re-verified schema or reviewed entry; L2 no (nil, nil); L3 comma-ok values are not dereferenced when absent; L4 no process-killing call; P12 a negative LIMIT cannot reach make(); L6 every goroutine is joined or its producer drained; IO1 reader discipline. Also: X7 the scanner advances by the decoder's size; L2b, L3b, L6c, L6d (DESIGN §0.1). Not decided: absence of all panics, bounded running time. Round 3: D1 no defer in a loop.",
 		Rules: []func(*Ctx){func(c *Ctx) { ruleD1(c, "triple/...", "io", "bql/...", "storage/...") }, ruleX7, ruleX1, ruleX1b, ruleX2, ruleX3,
 			func(c *Ctx) { ruleL1(c, 80, "./triple/...", "./io/...", "./bql/...", "./storage/...") },
 			func(c *Ctx) { ruleL2(c, 100, "triple/...", "io", "bql/...", "storage/...") },
@@ -111,7 +111,7 @@ func init() {
 	})
 	reg(&Property{
 		ID:          "C09",
-		Explanation: "Decides: S8 the documented order bounds -> filter -> sort -> page, identical in all eleven lookups and with the page test guarding every send; S10 the window is closed on both sides by symmetry of the comparisons; S11 every filter operation has all its handlers (constants = SupportedOperations = String = executeFilter = planner table) and the two kind filters are twins; S12 no equality on zone-dependent renderings; S6 LatestAnchor is implemented without writing the caller's options. Also: S9z, S8x, S8y (checker keeps the caller's options), S12b no == between time.Time values. Not decided: paging arithmetic, ties in latest.",
+		Explanation: "Decides: S8 the documented order bounds -> filter -> sort -> page, identical in all eleven lookups and with the page test guarding every send; S10 the window is closed on both sides by symmetry of the comparisons; S11 every filter operation has all its handlers (constants = SupportedOperations = String = executeFilter = planner table) and the two kind filters are twins; S12 no equality on zone-dependent renderings; S6 LatestAnchor is implemented without writing the caller's options. Also: S9z, S8x, S8y (checker keeps the caller's options), S12b no == between time.Time values. Not decided: paging arithmetic, ties in latest. Round 3: S6b aliasing through a returned parameter; D1.",
 		Rules: []func(*Ctx){ruleS6b, func(c *Ctx) { ruleD1(c, "triple/...", "io", "bql/...", "storage/...") }, ruleS9z, ruleS8, ruleS8x, ruleS8y, func(c *Ctx) { ruleS12b(c, "storage/...", "bql/...", "triple/...") }, func(c *Ctx) { ruleS10(c, 1, "storage/memory") }, ruleS11,
 			func(c *Ctx) { ruleS12(c, "storage/memory", "storage/memoization") }, ruleS6},
 		Level:      "pipeline shape by def-use and dominance (S8), bound duality (S10), exhaustiveness tables and twin comparison (S11), direct rendering equality (S12)",
@@ -120,7 +120,7 @@ func init() {
 	})
 	reg(&Property{
 		ID:          "C10",
-		Explanation: "Decides (P4): (a) processClause reports 'unresolvable' (which truncates the table) only on the non-optional edge; (b) the plain cross product is only taken for non-optional clauses and LeftOptionalJoin takes it only with a non-empty right table; (c) when an optional clause matches nothing for a row the row is re-added with NULL cells; (d) every skippableError return in tripleToRow is on the non-optional edge. Also: P4e only reviewed row-preserving operations where the clause may be optional; P5c stage guards; PO1; TB1. Not decided: multiplicities of matches.",
+		Explanation: "Decides (P4): (a) processClause reports 'unresolvable' (which truncates the table) only on the non-optional edge; (b) the plain cross product is only taken for non-optional clauses and LeftOptionalJoin takes it only with a non-empty right table; (c) when an optional clause matches nothing for a row the row is re-added with NULL cells; (d) every skippableError return in tripleToRow is on the non-optional edge. Also: P4e only reviewed row-preserving operations where the clause may be optional; P5c stage guards; PO1; TB1. Not decided: multiplicities of matches. Round 3: S6b; D1; P4c the unmatched row is merged with empty cells.",
 		Rules:       []func(*Ctx){ruleS6b, func(c *Ctx) { ruleD1(c, "triple/...", "io", "bql/...", "storage/...") }, ruleP4, ruleP4e, ruleP5c, rulePO1, ruleTB1},
 		Level:       "edge-fact dominance on the four places where an optional clause could drop rows (P4)",
 		Trusted:     []string{trustedCore},
@@ -128,7 +128,7 @@ func init() {
 	})
 	reg(&Property{
 		ID:          "C11",
-		Explanation: "Decides: P7 validator and executor compare a GROUP BY entry with the same Projection fields; A1 every accumulator's Reset re-initialises what Accumulate writes and the group reducer resets all accumulators before each group; P8 the reduce step's error is propagated; L1 the empty pattern does not index row 0 and the other unproven indexes of the grouping path are discharged. Also: A2 group boundary and distinct keys are computed from whole cells; P7b validator/executor DNF agreement; P6. Not decided: group integrity on mixed-kind columns, accumulator arithmetic, distinct counting.",
+		Explanation: "Decides: P7 validator and executor compare a GROUP BY entry with the same Projection fields; A1 every accumulator's Reset re-initialises what Accumulate writes and the group reducer resets all accumulators before each group; P8 the reduce step's error is propagated; L1 the empty pattern does not index row 0 and the other unproven indexes of the grouping path are discharged. Also: A2 group boundary and distinct keys are computed from whole cells; P7b validator/executor DNF agreement; P6. Not decided: group integrity on mixed-kind columns, accumulator arithmetic, distinct counting. Round 3: A3 count increments unconditionally; A4 one result slot per aggregate.",
 		Rules: []func(*Ctx){ruleA3, ruleA4, ruleA2, ruleP6, ruleP7, ruleP7b, ruleA1, func(c *Ctx) { ruleP8(c, "bql/planner") },
 			func(c *Ctx) { ruleL1(c, 20, "./bql/table/...", "./bql/planner/...") }},
 		Level:      "sibling agreement (P7), error use (P8), bounds discharge (L1)",
@@ -137,7 +137,7 @@ func init() {
 	})
 	reg(&Property{
 		ID:          "C12",
-		Explanation: "Decides: P5 stage order pattern -> project/group -> order -> having -> limit, each once and dominating the next; P6 the limit is pushed into the driver only under empty GROUP BY, ORDER BY, HAVING and a single clause; P10 numeric/chronological order is not decided on renderings in the sort comparator; P12 the limit literal is an int64 and non-negative before it is stored and Table.Limit only ever receives it; P13 the comparator reads both rows under the first key, passes its direction and recurses on the remaining keys exactly on equality. Also: P12b ORDER BY de-duplication keeps whole original entries in order; P5c each stage works iff its clause is present. Not decided: that the sort yields a sorted permutation, DESC and multi-key handling.",
+		Explanation: "Decides: P5 stage order pattern -> project/group -> order -> having -> limit, each once and dominating the next; P6 the limit is pushed into the driver only under empty GROUP BY, ORDER BY, HAVING and a single clause; P10 numeric/chronological order is not decided on renderings in the sort comparator; P12 the limit literal is an int64 and non-negative before it is stored and Table.Limit only ever receives it; P13 the comparator reads both rows under the first key, passes its direction and recurses on the remaining keys exactly on equality. Also: P12b ORDER BY de-duplication keeps whole original entries in order; P5c each stage works iff its clause is present. Not decided: that the sort yields a sorted permutation, DESC and multi-key handling. Round 3: P12c IsLimitSet returns the flag the LIMIT hook sets; T1 time layout.",
 		Rules:       []func(*Ctx){ruleP12c, ruleT1, ruleP5, ruleP6, func(c *Ctx) { ruleP10(c, "bql/table") }, ruleP12, ruleP12b, ruleP13, ruleP5c},
 		Level:       "dominance of stages (P5), guard facts at the push-down sites (P6), taint from non-order-preserving renderings to string orderings (P10), guard facts on the limit store (P12)",
 		Trusted:     []string{"sort.Sort sorts", trustedCore},
@@ -145,7 +145,7 @@ func init() {
 	})
 	reg(&Property{
 		ID:          "C13",
-		Explanation: "Decides: P5 HAVING is applied after grouping and before limit; P10 the HAVING evaluators do not order numbers or times by their renderings; E1 each comparisonFor* evaluator tests the cell's kind-specific field before comparing; L7 the evaluator builder's recursion terminates; L2 evaluator constructors never return (nil, nil). Also: E2 NOT never returns its operand; P5c; P8/P8b evaluator errors propagate. Not decided: truth-functional correctness of the boolean evaluator and of the hand-written expression builder.",
+		Explanation: "Decides: P5 HAVING is applied after grouping and before limit; P10 the HAVING evaluators do not order numbers or times by their renderings; E1 each comparisonFor* evaluator tests the cell's kind-specific field before comparing; L7 the evaluator builder's recursion terminates; L2 evaluator constructors never return (nil, nil). Also: E2 NOT never returns its operand; P5c; P8/P8b evaluator errors propagate. Not decided: truth-functional correctness of the boolean evaluator and of the hand-written expression builder. Round 3: E3 evaluators are stateless; E4 formatCell compares the cell's own text; E1 the literal type test lies on every path.",
 		Rules:       []func(*Ctx){ruleE3, ruleE4, ruleE2, ruleP5, ruleP5c, func(c *Ctx) { ruleP8(c, "bql/semantic") }, func(c *Ctx) { ruleP8b(c, "bql/semantic") }, func(c *Ctx) { ruleP10(c, "bql/semantic") }, ruleE1, func(c *Ctx) { ruleL7(c, "bql/semantic") }, func(c *Ctx) { ruleL2(c, 40, "bql/semantic") }},
 		Level:       "stage dominance (P5), rendering taint (P10), structural recursion (L7)",
 		Trusted:     []string{trustedCore},
@@ -153,7 +153,7 @@ func init() {
 	})
 	reg(&Property{
 		ID:          "C14",
-		Explanation: "Decides one clause only: P11 no map iteration order reaches an ordered output — every range over a map in bql/… and storage/… whose body appends, sends, writes or leaves with an element is followed by a sort of what it built or is in the reviewed table with its reason; in particular the ORDER BY key list is no longer rebuilt from a map. Also: HK1 hooks consume the modifier token they remember (no carry-over to the next clause); P3b the last FROM graph does not decide feasibility alone; S6b; P12b; S1/S1x index agreement (answers do not depend on which index a clause order selects); M4/M5. Not decided: invariance under renaming, clause permutation, partitioning, chanSize/bulkSize/GOMAXPROCS, monotonicity.",
+		Explanation: "Decides one clause only: P11 no map iteration order reaches an ordered output — every range over a map in bql/… and storage/… whose body appends, sends, writes or leaves with an element is followed by a sort of what it built or is in the reviewed table with its reason; in particular the ORDER BY key list is no longer rebuilt from a map. Also: HK1 hooks consume the modifier token they remember (no carry-over to the next clause); P3b the last FROM graph does not decide feasibility alone; S6b; P12b; S1/S1x index agreement (answers do not depend on which index a clause order selects); M4/M5. Not decided: invariance under renaming, clause permutation, partitioning, chanSize/bulkSize/GOMAXPROCS, monotonicity. Round 3: P3c; TB2; D1; S3c; H1x.",
 		Rules:       []func(*Ctx){ruleP3c, ruleTB2, ruleH1x, func(c *Ctx) { ruleD1(c, "triple/...", "io", "bql/...", "storage/...") }, func(c *Ctx) { ruleS3c(c, "triple/...", "io", "bql/...", "storage/...") }, ruleHK1, ruleS1, ruleS1x, ruleM4M5, func(c *Ctx) { ruleP11(c, "bql/...", "storage/...") }, ruleP3b, ruleS6b, ruleP12b},
 		Level:       "enumeration of order-sensitive map ranges with a reviewed table (P11)",
 		Trusted:     []string{"p11Reviewed (8 sites, one reason each)", trustedCore},
@@ -161,7 +161,7 @@ func init() {
 	})
 	reg(&Property{
 		ID:          "C15",
-		Explanation: "Decides: L1 every compiler-unproven index/slice in node/predicate/literal/triple/io is discharged by a guard re-verified on the current code; L2 no parser or builder returns (nil, nil), ParseObject included; IO1 the reader adds only parsed triples, counts only added ones, returns errors with the count so far and reports success only after consulting the scanner's error; T1 printer/parser table agreement. Also: T2/T2b conversion table and unchanged value text; L2b nil results only with a known non-nil error. Not decided: accepted text re-parses to an equal value.",
+		Explanation: "Decides: L1 every compiler-unproven index/slice in node/predicate/literal/triple/io is discharged by a guard re-verified on the current code; L2 no parser or builder returns (nil, nil), ParseObject included; IO1 the reader adds only parsed triples, counts only added ones, returns errors with the count so far and reports success only after consulting the scanner's error; T1 printer/parser table agreement. Also: T2/T2b conversion table and unchanged value text; L2b nil results only with a known non-nil error. Not decided: accepted text re-parses to an equal value. Round 3: FS1; N1/N1b; T3.",
 		Rules: []func(*Ctx){ruleN1b, ruleT3, ruleN1, func(c *Ctx) { ruleFS1(c, "triple/...", "io") }, ruleT2b, func(c *Ctx) { ruleL1(c, 20, "./triple/...", "./io/...") },
 			func(c *Ctx) { ruleL2(c, 20, "triple/...", "io") }, func(c *Ctx) { ruleL2b(c, 8, "triple/...", "io") }, ruleIO1, ruleT1, ruleT2},
 		Level:      "compiler prove pass + re-verified discharge table (L1), (nil,nil) contradiction rule (L2), must-pass-through on the reader (IO1)",
@@ -170,7 +170,7 @@ func init() {
 	})
 	reg(&Property{
 		ID:          "C16",
-		Explanation: "Decides: X1 every unbounded lexer loop consumes a rune per cycle and has no feasible cycle at end of input; X1b every state-graph cycle passes through lexToken, which hands over without consuming only under a rune-class fact, after which at least one rune is consumed; X2 exactly one terminal token, nothing after it, channel closed once by run; X3 cursor writers and backup-after-next typestate, hence token texts are ordered disjoint substrings and emit cannot panic; X4 keywords and literal type names are matched case-insensitively; X5 TokenType.String, grammar tokens and literal type names agree. Also: X6 no blind skip; X7 position moves by the decoder's size only; X8 the predicate/literal dispatch cannot take the opening quote for a closing one. Not decided: whitespace invariance, printed form is one token.",
+		Explanation: "Decides: X1 every unbounded lexer loop consumes a rune per cycle and has no feasible cycle at end of input; X1b every state-graph cycle passes through lexToken, which hands over without consuming only under a rune-class fact, after which at least one rune is consumed; X2 exactly one terminal token, nothing after it, channel closed once by run; X3 cursor writers and backup-after-next typestate, hence token texts are ordered disjoint substrings and emit cannot panic; X4 keywords and literal type names are matched case-insensitively; X5 TokenType.String, grammar tokens and literal type names agree. Also: X6 no blind skip; X7 position moves by the decoder's size only; X8 the predicate/literal dispatch cannot take the opening quote for a closing one. Not decided: whitespace invariance, printed form is one token. Round 3: X9 only lexToken consults the previous token.",
 		Rules:       []func(*Ctx){ruleX9, ruleX7, ruleX8, ruleX1, ruleX1b, ruleX2, ruleX3, ruleX4, ruleX5, ruleX6},
 		Level:       "progress/ranking argument per loop and for the state machine by abstract interpretation over rune classes (X1, X1b), typestate (X2, X3), table agreement (X4, X5)",
 		Trusted:     []string{"utf8.DecodeRuneInString returns width >= 1 on non-empty input", trustedCore},
@@ -178,7 +178,7 @@ func init() {
 	})
 	reg(&Property{
 		ID:          "C17",
-		Explanation: "Decides, completely over the finite grammar table constant-evaluated from grammar.BQL: G1 pairwise distinct first tokens, token-first, single last empty alternative, defined/reachable/productive rules; G2 a shortest witness sentence per alternative accepted by the checker's model of the predictive parser with exactly that alternative firing, and structural conformance of Parser.consume/expect to the model; G3 the semantic grammar is the plain grammar plus hooks; X5 every grammar token can be produced by the lexer. The real parser is not executed.",
+		Explanation: "Decides, completely over the finite grammar table constant-evaluated from grammar.BQL: G1 pairwise distinct first tokens, token-first, single last empty alternative, defined/reachable/productive rules; G2 a shortest witness sentence per alternative accepted by the checker's model of the predictive parser with exactly that alternative firing, and structural conformance of Parser.consume/expect to the model; G3 the semantic grammar is the plain grammar plus hooks; X5 every grammar token can be produced by the lexer. The real parser is not executed. Round 3: X9.",
 		Rules:       []func(*Ctx){ruleX9, ruleG1, ruleG2, ruleG3, ruleX5},
 		Level:       "exhaustive check of the LL(1) conditions over the finite table (G1), witness construction against a model parser plus structural conformance of the real parser (G2), shape preservation (G3)",
 		Trusted:     []string{"the constant evaluator covers the literal subset the grammar is written in (anything else is reported undecided, never passed)", trustedCore},
@@ -186,7 +186,7 @@ func init() {
 	})
 	reg(&Property{
 		ID:          "C18",
-		Explanation: "Decides: G4 Parser.Parse reports success only on the true edge of CanAccept(ItemEOF); G6 hook results can only reject (returned hook discarded, error only tested against nil, error edge returns false); G5 complete inventory of state that survives a parse — captured variables assigned by hook closures, package-level variables written outside init, parser/grammar fields written while parsing — each reviewed or a violation; G7 the look-ahead window keeps its size; G2's parser conformance. Also: HK1 a remembered modifier token is consumed on every successful path (state does not leak to the next clause or statement). Not decided: that the extracted meaning is the intended one.",
+		Explanation: "Decides: G4 Parser.Parse reports success only on the true edge of CanAccept(ItemEOF); G6 hook results can only reject (returned hook discarded, error only tested against nil, error edge returns false); G5 complete inventory of state that survives a parse — captured variables assigned by hook closures, package-level variables written outside init, parser/grammar fields written while parsing — each reviewed or a violation; G7 the look-ahead window keeps its size; G2's parser conformance. Also: HK1 a remembered modifier token is consumed on every successful path (state does not leak to the next clause or statement). Not decided: that the extracted meaning is the intended one. Round 3: HK2; G5 also inventories captured maps/slices edited in place; S3c.",
 		Rules: []func(*Ctx){ruleHK2, func(c *Ctx) { ruleS3c(c, "bql/...") }, ruleHK1, ruleG1, ruleG4, ruleG5, ruleG6, ruleG7, func(c *Ctx) {
 			c.Rule("G2", "Parser.consume/expect conform structurally to the predictive-parser model", 2)
 			c.parserConformance()
@@ -197,7 +197,7 @@ func init() {
 	})
 	reg(&Property{
 		ID:          "C19",
-		Explanation: "Decides: M1 the cache key covers every field of LookupOptions and of the nested filter options and includes the options' identity; M2 handles of one graph share cache state; M3 a reset follows the forwarded write; M4 only successful, complete reads are cached; M5 op name = method = forwarded method, pairwise distinct, full UUIDs of all components, same map and key for load and store, caller's arguments forwarded; S3/S5 lock and channel discipline of the wrapper; L6 its goroutines are joined. Also: M1x every option field is written into the key rendering; M3b unconditional resets; M4b every delivered element is recorded before caching. Not decided: equality of answers over histories and interleavings.",
+		Explanation: "Decides: M1 the cache key covers every field of LookupOptions and of the nested filter options and includes the options' identity; M2 handles of one graph share cache state; M3 a reset follows the forwarded write; M4 only successful, complete reads are cached; M5 op name = method = forwarded method, pairwise distinct, full UUIDs of all components, same map and key for load and store, caller's arguments forwarded; S3/S5 lock and channel discipline of the wrapper; L6 its goroutines are joined. Also: M1x every option field is written into the key rendering; M3b unconditional resets; M4b every delivered element is recorded before caching. Not decided: equality of answers over histories and interleavings. Round 3: S13; H3w a pooled slice is never cached.",
 		Rules:       []func(*Ctx){func(c *Ctx) { ruleH3w(c, "triple/...", "io", "storage/...", "bql/...") }, ruleS13, ruleM1, ruleM1x, ruleM2, ruleM3, ruleM3b, ruleM4M5, ruleM4b, ruleS3, ruleS5, func(c *Ctx) { ruleL6(c, 11, "storage/memoization") }},
 		Level:       "field coverage of the key (M1), provenance of handed-out memoizers (M2), post-dominance of the reset (M3), edge facts on cache stores (M4), key/op/forwarding agreement (M5)",
 		Trusted:     []string{"the wrapped driver is the specification", trustedCore},
@@ -205,7 +205,7 @@ func init() {
 	})
 	reg(&Property{
 		ID:          "C20",
-		Explanation: "Decides: P8 no error of a driver call or module function is dropped on an Execute path, in the memoizer or the io package; L2 no success return that discards a received error (nil table with nil error); L6 failures neither leak goroutines nor leave a ranged-over channel open; M4 partial reads are not cached; IO1 reader errors. Also: P9d first write error kept; I1; P8b; L6c consumers drain; L6d addTriples drains on every exit. Not decided: bounded time under arbitrary fault sequences; what a driver may do after returning an error.",
+		Explanation: "Decides: P8 no error of a driver call or module function is dropped on an Execute path, in the memoizer or the io package; L2 no success return that discards a received error (nil table with nil error); L6 failures neither leak goroutines nor leave a ranged-over channel open; M4 partial reads are not cached; IO1 reader errors. Also: P9d first write error kept; I1; P8b; L6c consumers drain; L6d addTriples drains on every exit. Not decided: bounded time under arbitrary fault sequences; what a driver may do after returning an error. Round 3: S13.",
 		Rules: []func(*Ctx){ruleS13, ruleP9d, ruleI1, func(c *Ctx) { ruleP8(c, "bql/planner", "storage/memoization", "io") }, func(c *Ctx) { ruleP8b(c, "bql/planner", "storage/memoization", "io") }, func(c *Ctx) { ruleL6c(c, "bql/planner", "io", "storage/...") }, ruleL6d,
 			func(c *Ctx) { ruleL2(c, 18, "bql/planner", "io") },
 			func(c *Ctx) { ruleL6(c, 25, "io", "bql/...", "storage/...") }, ruleM4M5, ruleIO1},
